@@ -16,6 +16,11 @@ def _blocks():
         mods.append(hierblock)
     except ImportError:
         pass
+    try:
+        from . import c03                # HttpRpc flat decoder: Props/C05_flat.lean, part_c05
+        mods.append(c03)
+    except ImportError:
+        pass
     return mods
 
 
